@@ -38,8 +38,10 @@ Descs ==
 SecondDescs == {d \in Descs : d.ext = "" /\ d.inc = "" /\ ~d.z} \cup {D("A", "super", FALSE, FALSE, "", FALSE, FALSE)}
 \* the root with block a again, with other literal text of the same length (only as a single add of A)
 RootV2 == [D("", "def", FALSE, FALSE, "", FALSE, FALSE) EXCEPT !.v2 = TRUE]
+\* the component provider again, with another BODY of the component under the same signature (as a single add of any name)
+ProviderV2 == [D("", "def", FALSE, FALSE, "", TRUE, FALSE) EXCEPT !.v2 = TRUE]
 Batches == IF IsChain THEN {<<<<n, d>>>> : n \in Names, d \in Descs} ELSE
-           {<<<<n, d>>>> : n \in Names, d \in Descs} \cup {<<<<"A", RootV2>>>>}
+           {<<<<n, d>>>> : n \in Names, d \in Descs} \cup {<<<<"A", RootV2>>>>} \cup {<<<<n, ProviderV2>>>> : n \in Names}
            \cup {<<<<n, d>>, <<m, e>>>> : n \in Names, d \in Descs, m \in Names, e \in SecondDescs}
 SuffixSets == IF IsChain THEN {{".h"}} ELSE {{}, {".h"}}
 EndsWithH(n) == n = "C.h"
